@@ -67,4 +67,9 @@ def main():
 
 
 if __name__ == "__main__":
-    sys.exit(main())
+    _status = main()
+    # leave without waiting for anything (pool manager threads, a stray child holding a pipe open): the
+    # verdict is known, everything has been written
+    sys.stdout.flush()
+    sys.stderr.flush()
+    os._exit(_status if isinstance(_status, int) else (0 if _status is None else 1))
